@@ -309,6 +309,15 @@ PROPS = {
                 "different interleavings were executed and checked",
         "jobs": [
             {"family": "list-sched", "flavour": "release", "cases": {"quick": 4096, "thorough": 16096}, "case_timeout": 120},
+            # the Rust List API under Miri with real threads: Miri's data-race detector, borrow
+            # tracker and deadlock detector watch every access to the list storage (needs no hook,
+            # so an access that takes no lock at all is seen too); histories are checked for
+            # linearizability; every configuration meets one interleaving per Miri seed
+            {"kind": "miri", "family": "list-race-miri", "crate": "listmiri", "bin": "listrace",
+             "procs": {"quick": 2, "thorough": 8}, "nops": {"quick": 14, "thorough": 40},
+             "many_seeds": {"quick": 16, "thorough": 48},
+             "summary_re": r"(\d+) configurations, (\d+) operations, (\d+) search nodes",
+             "budget": {"quick": 300, "thorough": 1500}},
         ],
         "assumptions": ["the shared-vector model (Vec per list object) is the documented meaning of List",
                         "yield points are the lock acquisitions and element callbacks: code between two of them is "
